@@ -688,32 +688,61 @@ func (c *checkCtx) replacesProved(o *Obligation) bool {
 	return false
 }
 
-// rebindClosureContracts: contracts of function literals are keyed by ordinal (F$2$1). When a literal is added or removed
-// in front of them the ordinals shift although nothing about the contracted literal changed. A contract whose key names no
-// function is re-bound to the one literal of the same enclosing top-level function and nesting depth that has no contract of
-// its own and in which every identifier the contract mentions is a parameter, a named result or a captured variable. If there
-// is not exactly one such literal the contract stays unbound (reported as contract/target-missing).
+// rebindClosureContracts: contracts of function literals are keyed by ordinal (F$2$1). When a literal is added, removed or
+// turned into a named function, the ordinals shift although nothing about the contracted code changed. A contract FITS a
+// function when every identifier it mentions is a parameter, result, captured variable or named local of that function (or a
+// package-level name). A closure contract whose key names no function, or a function it does not fit, is detached and placed
+// on the one function it fits among the contract-less function literals of the same top-level function and the contract-less
+// plain functions of the same package; if there is not exactly one, it stays where it was (and fails loudly there).
 func (e *Engine) rebindClosureContracts() []string {
 	var notes []string
-	var missing []string
-	for k := range e.ctrs {
-		if _, ok := e.funcs[k]; !ok && strings.Contains(k, "$") && !strings.Contains(k, ".*.") {
-			missing = append(missing, k)
+	builtinNames := map[string]bool{"result": true, "nil": true, "true": true, "false": true, "recv": true}
+	localNames := func(fn *ssa.Function) map[string]bool {
+		names := map[string]bool{}
+		for _, p := range fn.Params {
+			names[p.Name()] = true
 		}
+		for _, fv := range fn.FreeVars {
+			names[fv.Name()] = true
+		}
+		if res := fn.Signature.Results(); res != nil {
+			for i := 0; i < res.Len(); i++ {
+				names[res.At(i).Name()] = true
+				names[fmt.Sprintf("result%d", i)] = true
+			}
+		}
+		for i := 0; i < 8; i++ {
+			names[fmt.Sprintf("arg%d", i)] = true
+		}
+		for _, b := range fn.Blocks {
+			for _, ins := range b.Instrs {
+				switch ins := ins.(type) {
+				case *ssa.DebugRef:
+					if o := ins.Object(); o != nil {
+						names[o.Name()] = true
+					}
+				case *ssa.Alloc:
+					if ins.Comment != "" {
+						names[ins.Comment] = true
+					}
+				case *ssa.Phi:
+					if ins.Comment != "" {
+						names[ins.Comment] = true
+					}
+				}
+			}
+		}
+		return names
 	}
-	sort.Strings(missing)
-	for _, k := range missing {
-		ctr := e.ctrs[k]
-		root := k[:strings.Index(k, "$")]
-		depth := strings.Count(k, "$")
-		idents := map[string]bool{}
+	idents := func(ctr *Contract) map[string]bool {
+		out := map[string]bool{}
 		var walk func(x *SExpr)
 		walk = func(x *SExpr) {
 			if x == nil {
 				return
 			}
-			if x.Op == "id" && !strings.HasPrefix(x.Name, "$") {
-				idents[x.Name] = true
+			if x.Op == "id" && !strings.HasPrefix(x.Name, "$") && !strings.Contains(x.Name, ".") {
+				out[x.Name] = true
 			}
 			for _, a := range x.Args {
 				walk(a)
@@ -725,52 +754,100 @@ func (e *Engine) rebindClosureContracts() []string {
 		for _, cl := range ctr.Ensures {
 			walk(cl.E)
 		}
+		for _, a := range ctr.Assigns {
+			walk(a)
+		}
+		for _, ls := range ctr.Loops {
+			for _, cl := range ls.Invs {
+				walk(cl.E)
+			}
+			for _, cl := range ls.Body {
+				walk(cl.E)
+			}
+			if ls.Decreases != nil {
+				walk(ls.Decreases.E)
+			}
+		}
+		for _, cc := range ctr.Calls {
+			walk(cc.E)
+		}
+		return out
+	}
+	pkgHas := func(fn *ssa.Function, id string) bool {
+		top := fn
+		for top.Parent() != nil {
+			top = top.Parent()
+		}
+		if top.Pkg == nil {
+			return false
+		}
+		if top.Pkg.Pkg.Scope().Lookup(id) != nil {
+			return true
+		}
+		for _, imp := range top.Pkg.Pkg.Imports() {
+			if imp.Name() == id {
+				return true
+			}
+		}
+		return false
+	}
+	fits := func(ctr *Contract, fn *ssa.Function) bool {
+		names := localNames(fn)
+		for id := range idents(ctr) {
+			if names[id] || builtinNames[id] || pkgHas(fn, id) || e.specs[id] != nil {
+				continue
+			}
+			return false
+		}
+		return true
+	}
+	// 1. detach closure contracts that are unbound or do not fit
+	type detached struct {
+		key string
+		ctr *Contract
+	}
+	var loose []detached
+	var keys []string
+	for k := range e.ctrs {
+		keys = append(keys, k)
+	}
+	sort.Strings(keys)
+	for _, k := range keys {
+		if !strings.Contains(k, "$") || strings.Contains(k, ".*.") {
+			continue
+		}
+		fn, ok := e.funcs[k]
+		if ok && fits(e.ctrs[k], fn) {
+			continue
+		}
+		loose = append(loose, detached{k, e.ctrs[k]})
+		delete(e.ctrs, k)
+	}
+	// 2. place each of them
+	for _, d := range loose {
+		root := d.key[:strings.Index(d.key, "$")]
 		var cands []string
 		for _, ck := range e.sortedFuncKeys() {
-			if !strings.HasPrefix(ck, root+"$") || strings.Count(ck, "$") != depth || e.ctrs[ck] != nil {
+			if e.ctrs[ck] != nil {
 				continue
 			}
 			fn := e.funcs[ck]
-			names := map[string]bool{"result": true, "nil": true, "true": true, "false": true}
-			for _, p := range fn.Params {
-				names[p.Name()] = true
+			isLiteralOfRoot := strings.HasPrefix(ck, root+"$")
+			samePkgPlain := !strings.Contains(ck, "$") && fn.Signature.Recv() == nil && strings.LastIndex(ck, ".") == strings.LastIndex(root, ".") && ck[:strings.LastIndex(ck, ".")] == root[:strings.LastIndex(root, ".")]
+			if !isLiteralOfRoot && !samePkgPlain {
+				continue
 			}
-			for _, fv := range fn.FreeVars {
-				names[fv.Name()] = true
-			}
-			if res := fn.Signature.Results(); res != nil {
-				for i := 0; i < res.Len(); i++ {
-					names[res.At(i).Name()] = true
-					names[fmt.Sprintf("result%d", i)] = true
-				}
-			}
-			ok := true
-			for id := range idents {
-				if !names[id] && !strings.Contains(id, ".") {
-					if fn.Pkg == nil || fn.Pkg.Pkg.Scope().Lookup(id) == nil {
-						if p := fn.Parent(); p != nil {
-							top := p
-							for top.Parent() != nil {
-								top = top.Parent()
-							}
-							if top.Pkg != nil && top.Pkg.Pkg.Scope().Lookup(id) != nil {
-								continue
-							}
-						}
-						ok = false
-					}
-				}
-			}
-			if ok {
+			if len(fn.Blocks) > 0 && fits(d.ctr, fn) && len(idents(d.ctr)) > 0 {
 				cands = append(cands, ck)
 			}
 		}
-		if len(cands) == 1 {
-			cp := *ctr
+		if len(cands) == 1 && cands[0] != d.key {
+			cp := *d.ctr
 			cp.Key = cands[0]
 			e.ctrs[cands[0]] = &cp
-			delete(e.ctrs, k)
-			notes = append(notes, "contract written for "+k+" is applied to "+cands[0]+": the ordinal of the function literal shifted, it is the only literal of that function and depth that fits the contract's names")
+			notes = append(notes, "contract written for "+d.key+" is applied to "+cands[0]+": the function literal moved (ordinals shifted, or it became a named function); it is the only contract-less candidate all of whose names fit the contract")
+		} else {
+			e.ctrs[d.key] = d.ctr // stays where it was: verified (and failing) against whatever is there, or reported as target-missing
 		}
 	}
 	return notes
